@@ -16,6 +16,7 @@ mod sources;
 mod stream;
 mod total;
 mod uri;
+mod util;
 mod wire;
 mod wirecases;
 
@@ -109,6 +110,7 @@ fn main() {
         "ops" => ops::run(&args),
         "ready" => ready::run(&args),
         "net" => net::run(&args),
+        "util" => util::run(&args),
         "cost" => cost::run(&args),
         "cost-child" => cost::cost_child(&args),
         "bomb-child" => total::bomb_child(&args),
